@@ -119,6 +119,7 @@ func runGlue(ctx *Ctx, c glueCase) {
 		c.orc.nfc(res.AsString()) // a fact about the real library: the result is a fixed point of NFC
 	}
 	ctx.Add("std.glue", out, c.name, wireArgs(c.args), c.orc.wire())
+	c14RefGlue(ctx, c, out)
 	ctx.Tag("fn:" + c.name)
 	ctx.Tag("class:" + c.name + ":" + class)
 	ctx.Eval(c.name+" "+wireArgs(c.args), true)
